@@ -28,6 +28,7 @@ func runC01(w *World) *Result {
 	r.Analysed["cells"] = len(bash.Cells)
 	OpTableRule(w, bash, r, "R-C01-optable")
 	AllocRule(w, bash, r, "R-C01-alloc")
+	PopRule(w, "bash", r, "R-C01-alloc", "ForStart", "IfStart")
 	ExitRule(w, bash, batch, r, "R-C01-exit")
 	r.Rule("R-C01-lower", "for / if lowering follows the protocol (init, ForStart, guarded increment, condition, ForCondition, body, ForEnd; all conditions before IfStart)", 2)
 	ProtoRule(w, r, "R-C01-lower", func(n string) bool { return n == "For" || n == "If" || n == "Block" })
@@ -60,6 +61,7 @@ func runC05(w *World) *Result {
 	OpTableRule(w, batch, r, "R-C05-optable")
 	SiblingCells(w, bash, batch, r, "R-C05-optable")
 	AllocRule(w, batch, r, "R-C05-alloc")
+	PopRule(w, "batch", r, "R-C05-alloc")
 	r.Rule("R-C05-blockexit", "Batch: a line closing a parenthesised block that held user statements is never reached by falling through: the line before it is an unconditional goto to a label kept on the construct's stack", 3)
 	c05BlockExit(w, batch, r)
 	// numcmp over all lines incl. helper bodies
@@ -94,6 +96,7 @@ func runC02(w *World) *Result {
 	r.Rule("R-C02-mangle", "helper stored and read under the same (mangled) name within one converter method", 30)
 	r.Rule("R-C02-reg", "return/argument registers: writer and reader agree on stem and index; reads follow the call line", 5)
 	r.Rule("R-C02-frame", "the numeric prefix of function-local names is a counter advanced only by FuncStart, before its first line", 2)
+	r.Rule("R-C02-pop", "every construct stack pushed by an opener is popped by its closer, and a pop removes exactly the top element (the function stack decides whether names are mangled as locals)", 4)
 	r.Rule("R-C02-store", "multi-target assignment: all right-hand sides are evaluated (and snapshotted) before the first store", 1)
 	c02Store(w, r)
 	r.Rule("R-C02-ident", "statements referring to existing variables carry the looked-up definition; lookups find file-prefixed globals from any scope", 6)
@@ -107,7 +110,16 @@ func runC02(w *World) *Result {
 		MangleRule(w, b, r, "R-C02-mangle")
 		RegisterRule(w, b, r, "R-C02-reg")
 		FrameRule(w, b, r, "R-C02-frame")
+		PopRule(w, role, r, "R-C02-pop", "FuncStart")
 	}
+	r.Rule("R-C02-driver", "calls and returns: every argument / returned value is evaluated once, as a used value, in order, before the converter call", 5)
+	ProtoRule(w, r, "R-C02-driver", func(n string) bool {
+		switch n {
+		case "FunctionCall", "FunctionDefinition", "Return", "VariableDefinitionCallAssignment", "VariableAssignmentCallAssignment":
+			return true
+		}
+		return false
+	})
 	return r
 }
 
